@@ -88,8 +88,6 @@ def handleSpend (s : St) (ws : List String) : IO St := do
         then " lease_cltv_locktime0=1" else ""
       s ← monitor s "justice-valid" s!"ctx={ctxS} kind={kind} wt={kvS ws "wt"} seq={seq} lock={lock} engine={engine}{leaseTag}"
   -- (X) model
-  if spk == "p2tr" || s.ct.taproot then
-    return { s with modelSkipped := s.modelSkipped + 1 }
   let some ev := engineVerdict engine | return { s with modelSkipped := s.modelSkipped + 1 }
   let some wit := parseWitness (kvS ws "wit") | mismatch s s!"unparsed witness {kvS ws "wit"}"
   let some script0 := parseScript (kvS ws "ws") | mismatch s s!"unparsed script {kvS ws "ws"}"
@@ -97,6 +95,35 @@ def handleSpend (s : St) (ws : List String) : IO St := do
   let v := nodeOf (ctxField ctxS "v")
   let r : Revoked := { ct := s.ct, victim := v, victimInitiator := v == 0,
                        csv := s.csv[1 - v]!, leaseExpiry := s.thaw }
+  if spk == "p2tr" || s.ct.taproot then
+    -- simple-taproot: script path = tapscript interpreter, key path = signer is the internal key
+    let keyPath := kvS ws "ws" == "-"
+    let cx : Ctx := { version := ver, sequence := seq, lockTime := lock, tapscript := true }
+    let mv := (if keyPath then
+        match wit with
+        | [.sig sk _ true] => sk == r.revocationKey
+        | _ => false
+      else run cx script0 wit) && kvS ws "pk" == "1"
+    if mv != ev then
+      s ← mismatch s s!"verdict(taproot) ctx={ctxS} kind={kind} var={variant} model={mv} engine={engine}"
+    s := { s with modelChecked := s.modelChecked + 1 }
+    if variant == "pos" then
+      if keyPath != (r.tapScript k).isNone then
+        s ← mismatch s s!"taproot spend path ctx={ctxS} kind={kind} impl_keypath={keyPath}"
+      if let some sc := r.tapScript k then
+        if script0 != sc then
+          s ← mismatch s s!"script(taproot) ctx={ctxS} kind={kind} impl={kvS ws "ws"} model={repr sc}"
+      if wit != r.tapWitness k then
+        s ← mismatch s s!"witness(taproot) ctx={ctxS} kind={kind} impl={kvS ws "wit"} model={repr (r.tapWitness k)}"
+      let mc := r.tapCtx k
+      if seq != mc.sequence || lock != mc.lockTime || ver != mc.version then
+        s ← mismatch s s!"txshape ctx={ctxS} kind={kind} impl=ver{ver},seq{seq},lock{lock} model=ver{mc.version},seq{mc.sequence},lock{mc.lockTime}"
+      if kvS ws "wt" != r.witnessTypeName k then
+        s ← mismatch s s!"witness type ctx={ctxS} kind={kind} impl={kvS ws "wt"} model={r.witnessTypeName k}"
+      if r.tapJusticeValid k != ev then
+        s ← mismatch s s!"tapJusticeValid ctx={ctxS} kind={kind} model={r.tapJusticeValid k} engine={engine}"
+      s := { s with structChecked := s.structChecked + 1 }
+    return s
   let cltv := findCltv script0
   let ph := findPayHash script0
   let modelScript := r.script k (if k == .htlcOff then cltv else 0) ph
@@ -272,8 +299,12 @@ def step (s : St) (line : String) : IO St := do
     let mc := r.ctx k
     if seq != mc.sequence || lock != mc.lockTime || ver != mc.version then
       s ← mismatch s s!"txshape ctx={ctxS} kind={kind} impl=ver{ver},seq{seq},lock{lock} model=ver{mc.version},seq{mc.sequence},lock{mc.lockTime}"
-    if !s.ct.taproot then
-      if let some ev := engineVerdict engine then
+    if let some ev := engineVerdict engine then
+      if s.ct.taproot then
+        if r.tapJusticeValid k != ev then
+          s ← mismatch s s!"tapJusticeValid ctx={ctxS} kind={kind} model={r.tapJusticeValid k} engine={engine}"
+        s := { s with modelChecked := s.modelChecked + 1 }
+      else
         -- the model's verdict for this configuration; HTLC parameters do not influence it
         let jv := r.justiceValid k 700100 (.h160 (.pre 0))
         if jv != ev then
